@@ -43,7 +43,10 @@ def run(repo: Repo, rep: Report, tier: str) -> None:
     _who_constructs(repo, rep, c)
     _codecs(repo, rep)
     _helper_names(repo, rep, c)
-
+    # rules of sibling properties that are necessary conditions of this one as well (same rule ids)
+    from ..core.report import Only
+    from . import c08 as _c08
+    _c08._r08_2(repo, Only(rep, {"R08.2"}))
 
 MAIN_DEF_SITES = ("_add_pack_method_definition", "_add_unpack_method_definition", "add_encode_method", "add_decode_method")
 
